@@ -141,3 +141,66 @@ def all_kernels(with_harvest=True, log=None, mixed=False):
           ks[nm] = (g[0].kernel, None, g)
           byid[kid] = nm
   return ks
+
+
+_temp_cache = {}
+
+
+def temp_per_world():
+  """Host temporaries handed to kernels: (module, kernel-or-builder name, parameter label) whose array is allocated in the
+  launching host function with a first dimension that mentions `nworld` (wp.zeros((d.nworld, ...)), wp.empty(...), wp.full(...),
+  wp.zeros_like / empty_like / clone of a per-world Data field).  Read from the current /repo sources (AST), so that the world
+  indexing of such scratch buffers is part of C09 although they are not fields of Data."""
+  if _temp_cache:
+    return _temp_cache["v"]
+  import ast
+  import importlib
+  import inspect
+
+  out = set()
+  tabs = spec_tables()
+  for mn in MODULES:
+    try:
+      mod = importlib.import_module(f"mujoco_warp._src.{mn}")
+      tree = ast.parse(inspect.getsource(mod))
+    except Exception:
+      continue
+    for fn in [n for n in ast.walk(tree) if isinstance(n, ast.FunctionDef)]:
+      alloc = {}
+      for node in ast.walk(fn):
+        if isinstance(node, ast.Assign) and len(node.targets) == 1 and isinstance(node.targets[0], ast.Name) and isinstance(node.value, ast.Call):
+          f = node.value.func
+          fname = f.attr if isinstance(f, ast.Attribute) else (f.id if isinstance(f, ast.Name) else "")
+          if fname in ("zeros", "empty", "full", "ones") and node.value.args:
+            shp = node.value.args[0]
+            first = shp.elts[0] if isinstance(shp, ast.Tuple) and shp.elts else shp
+            alloc[node.targets[0].id] = ast.unparse(first).strip() in ("d.nworld", "nworld", "data.nworld")
+          elif fname in ("zeros_like", "empty_like", "clone") and node.value.args:
+            src = ast.unparse(node.value.args[0])
+            stem_ = src.split(".")[-1]
+            sp = tabs.get(stem_) or tabs.get("efc_" + stem_) or tabs.get("contact_" + stem_)
+            alloc[node.targets[0].id] = bool(src.startswith("d.") and sp and sp[1] and sp[1][0] == "nworld")
+      for node in ast.walk(fn):
+        if not (isinstance(node, ast.Call) and isinstance(node.func, ast.Attribute) and node.func.attr == "launch"):
+          continue
+        kexpr = node.args[0] if node.args else next((k.value for k in node.keywords if k.arg == "kernel"), None)
+        if kexpr is None:
+          continue
+        kname = kexpr.id if isinstance(kexpr, ast.Name) else (kexpr.func.id if isinstance(kexpr, ast.Call) and isinstance(kexpr.func, ast.Name) else (kexpr.attr if isinstance(kexpr, ast.Attribute) else None))
+        if kname is None:
+          continue
+        args = []
+        for kw in ("inputs", "outputs"):
+          v = next((k.value for k in node.keywords if k.arg == kw), None)
+          if isinstance(v, (ast.List, ast.Tuple)):
+            args += list(v.elts)
+          elif v is not None:
+            args = None
+            break
+        if args is None:
+          continue
+        for pos, a in enumerate(args):
+          if isinstance(a, ast.Name) and alloc.get(a.id):
+            out.add((mn, kname, pos))
+  _temp_cache["v"] = out
+  return out
